@@ -354,6 +354,21 @@ pub fn replay(sub: &str, case: &J, acc: &mut Acc) {
     let po = PO::from_index(case["po"].as_u64().unwrap_or(0));
     match sub {
         "corpus-vs-reference" => check_against_reader(acc, "corpus-vs-reference", 0, &input, &po),
+        "constructions" => {
+            // replays re-run the whole comparison for the recorded (input, option set)
+            let a = parse_slice(&input, po.to_lexpr());
+            for (how, o) in [("sparse", po.to_lexpr_sparse()), ("from-elisp", po.to_lexpr_from_elisp()), ("default-preset", lexpr::parse::Options::default()), ("elisp-preset", lexpr::parse::Options::elisp()), ("new-preset", lexpr::parse::Options::new())] {
+                let applicable = match how {
+                    "default-preset" => po == PO::default_(),
+                    "elisp-preset" => po == PO::elisp(),
+                    "new-preset" => po == PO::new_empty(),
+                    _ => true,
+                };
+                if applicable && parse_slice(&input, o) != a {
+                    acc.violation("constructions", "construction-changes-reading", "construction-changes-reading", 0, format!("input={:?} opts=[{}] construction={}", show_bytes(&input), po.describe(), how), a.short(), || case.clone());
+                }
+            }
+        }
         "alphabet-vs-reference" => check_against_reader(acc, "alphabet-vs-reference", 0, &input, &po),
         "non-interference" => check_noninterference(acc, 0, &input),
         _ => {}
@@ -367,7 +382,10 @@ pub fn run(ctx: &Ctx) -> Report {
     let thorough = ctx.tier.thorough();
 
     if ctx.want("corpus-vs-reference") {
-        let ntok = TOKENS.len() as u64;
+        // the fixed token list plus the over-long number tokens and their near misses
+        let mut tokens: Vec<String> = TOKENS.iter().map(|s| s.to_string()).collect();
+        tokens.extend(crate::corpus::long_number_tokens().into_iter().filter_map(|t| String::from_utf8(t).ok()));
+        let ntok = tokens.len() as u64;
         let per_tok = (POSITIONS.len() * WRAPS.len()) as u64;
         let total = ntok * per_tok * N_PO;
         let sub = Sub::new(
@@ -378,12 +396,85 @@ pub fn run(ctx: &Ctx) -> Report {
         let accs = par_ranks(total, |rank, acc| {
             let pi = rank % N_PO;
             let c = rank / N_PO;
-            let tok = TOKENS[(c / per_tok) as usize];
+            let tok = &tokens[(c / per_tok) as usize];
             let pw = c % per_tok;
             let text = build_text(tok, (pw / WRAPS.len() as u64) as usize, (pw % WRAPS.len() as u64) as usize);
             let po = PO::from_index(pi);
             acc.sample(rank, || format!("{:?} [{}]", show_bytes(&text), po.describe()));
             check_against_reader(acc, "corpus-vs-reference", rank, &text, &po);
+        });
+        rep.absorb(sub, accs);
+    }
+    if ctx.want("constructions") {
+        // every way of arriving at an option set reads every token the same way, the getters
+        // report the set, and the presets are the documented sets
+        let mut texts: Vec<Vec<u8>> = Vec::new();
+        for tok in TOKENS {
+            texts.push(build_text(tok, 0, 0));
+            texts.push(build_text(tok, 2, 0));
+        }
+        let nt = texts.len() as u64;
+        let sub = Sub::new(
+            "constructions",
+            "for all 1536 option sets: the set built by calling every builder method explicitly, the set built from Options::new() by calling only the methods for options that differ from the documented empty set (additive keyword calls), and the set reached from Options::elisp() by overriding every option read every corpus token (top level and inside a list) identically, and the getters report the set; the presets Options::default() and Options::elisp() and the entry points from_str / from_slice / from_reader (and their _elisp variants) read every token like the documented default / Emacs Lisp option sets built explicitly; non-trivial = every case",
+            &format!("{} texts x 1536 option sets x 3 constructions + presets", nt),
+        );
+        let accs = par_ranks(nt * N_PO, |rank, acc| {
+            let text = &texts[(rank / N_PO) as usize];
+            let po = PO::from_index(rank % N_PO);
+            acc.evals += 3;
+            acc.nontrivial += 1;
+            let a = parse_slice(text, po.to_lexpr());
+            let case = || json!({"input_hex": hex(text), "po": po.index()});
+            for (how, o) in [("sparse (only non-default options set)", po.to_lexpr_sparse()), ("from the elisp preset with every option overridden", po.to_lexpr_from_elisp())] {
+                let b = parse_slice(text, o);
+                if a != b {
+                    acc.violation("constructions", "construction-changes-reading", "construction-changes-reading", rank, format!("input={:?} opts=[{}] construction={}", show_bytes(text), po.describe(), how), format!("explicit: {} ; {}: {}", a.short(), how, b.short()), case);
+                }
+                use lexpr::parse::{Brackets, CharSyntax, KeywordSyntax, NilSymbol, StringSyntax, TSymbol};
+                let getters_ok = o.keyword_syntax(KeywordSyntax::Octothorpe) == (po.kw & crate::domains::KW_OCTO != 0)
+                    && o.keyword_syntax(KeywordSyntax::ColonPrefix) == (po.kw & crate::domains::KW_PREFIX != 0)
+                    && o.keyword_syntax(KeywordSyntax::ColonPostfix) == (po.kw & crate::domains::KW_POSTFIX != 0)
+                    && matches!((o.nil_symbol(), po.nil), (NilSymbol::Default, 0) | (NilSymbol::EmptyList, 1) | (NilSymbol::Special, 2))
+                    && matches!((o.t_symbol(), po.t), (TSymbol::Default, 0) | (TSymbol::True, 1))
+                    && matches!((o.brackets(), po.brackets), (Brackets::List, 0) | (Brackets::Vector, 1))
+                    && matches!((o.string_syntax(), po.string), (StringSyntax::R6RS, 0) | (StringSyntax::Elisp, 1))
+                    && matches!((o.char_syntax(), po.chr), (CharSyntax::R6RS, 0) | (CharSyntax::Elisp, 1))
+                    && o.racket_hash_percent_symbols() == po.racket
+                    && o.leading_digit_symbols() == po.digit;
+                if !getters_ok {
+                    acc.violation("constructions", "getters-disagree", "getters-disagree", rank, format!("opts=[{}] construction={}", po.describe(), how), format!("{:?}", o), case);
+                }
+            }
+            let presets: Vec<(&str, Outcome)> = if po == PO::default_() {
+                let mut v = vec![("Options::default()", parse_slice(text, lexpr::parse::Options::default())), ("from_slice", crate::outcome::norm(guard(|| lexpr::from_slice(text)))), ("from_reader", crate::outcome::norm(guard(|| lexpr::from_reader(&text[..]))))];
+                if let Ok(s) = std::str::from_utf8(text) {
+                    v.push(("from_str", crate::outcome::norm(guard(|| lexpr::from_str(s)))));
+                    v.push(("str::parse", crate::outcome::norm(guard(|| s.parse::<lexpr::Value>()))));
+                }
+                v
+            } else if po == PO::elisp() {
+                let mut v = vec![("Options::elisp()", parse_slice(text, lexpr::parse::Options::elisp())), ("from_slice_elisp", crate::outcome::norm(guard(|| lexpr::parse::from_slice_elisp(text)))), ("from_reader_elisp", crate::outcome::norm(guard(|| lexpr::parse::from_reader_elisp(&text[..]))))];
+                if let Ok(s) = std::str::from_utf8(text) {
+                    v.push(("from_str_elisp", crate::outcome::norm(guard(|| lexpr::parse::from_str_elisp(s)))));
+                }
+                v
+            } else if po == PO::new_empty() {
+                vec![("Options::new()", parse_slice(text, lexpr::parse::Options::new()))]
+            } else {
+                vec![]
+            };
+            for (how, b) in presets {
+                acc.evals += 1;
+                acc.count("preset-comparisons");
+                // same source on both sides (error positions may differ between sources)
+                let a = if how.starts_with("from_reader") { crate::outcome::parse_reader(&text[..], po.to_lexpr()) } else { a.clone() };
+                if a != b {
+                    acc.violation("constructions", "preset-differs-from-documented-set", &format!("preset-differs-from-documented-set:{}", how), rank, format!("input={:?} preset={} documented=[{}]", show_bytes(text), how, po.describe()), format!("documented set: {} ; preset: {}", a.short(), b.short()), case);
+                }
+            }
+            acc.outcome(&a.short().len().min(12));
+            acc.sample(rank, || format!("{:?} [{}]", show_bytes(text), po.describe()));
         });
         rep.absorb(sub, accs);
     }
